@@ -299,6 +299,10 @@ let run_types line =
       String.concat " " (List.concat_map (fun p -> List.map (fun a ->
           Printf.sprintf "%s.%s:%s%s=%d" (code_of_base p.pt_base) (code_of_form p.pt_form) (code_of_base a.ae_base)
             (if a.ae_const then "c" else "m") (if binds p a then 1 else 0)) all_argexprs) all_ptypes)
+  | "explicit" ->
+      String.concat " " (List.concat_map (fun p -> List.map (fun a ->
+          Printf.sprintf "%s.%s:%s%s=%d" (code_of_base p.pt_base) (code_of_form p.pt_form) (code_of_base a.ae_base)
+            (if a.ae_const then "c" else "m") (if explicit_ok p a then 1 else 0)) all_argexprs) all_ptypes)
   | "results" ->
       String.concat " " (List.concat_map (fun s -> List.map (fun d ->
           Printf.sprintf "%s>%s=%d" (code_of_base s) (code_of_base d) (if converts s d then 1 else 0)) all_bases) all_bases)
@@ -315,6 +319,7 @@ let run_types line =
         | "bind" -> let v = base_of_code (next ()) in let f = fty () in TBindLast (f, v)
         | "hide" -> let f = fty () in THideLast f
         | "hr" -> let f = fty () in THideReturn f
+        | "retype" -> let f = fty () in TRetype f
         | t -> raise (Parse ("functor " ^ t)) in
       let f = fty () in
       Printf.sprintf "lib=%d direct=%d" (if lib_accepts gen_hop_modes sg r f then 1 else 0) (if direct_ok sg r f then 1 else 0)
